@@ -853,6 +853,7 @@ func checkC13(p *Prog, res *Result, tier string) {
 		}
 		checkErrorPreservation(p, res, "C13-R8", inScope, fallible, "a partition whose scan failed would be reported as complete: the read succeeds with keys missing")
 		checkFirstWinsErrors(p, res, "C13-R8", inScope)
+		checkScanCancellationIsAnError(p, res, "C13-R8")
 		// the same below the scanner: an adapter's iterator hands the engine's error on instead of ending the data (C11-R11)
 		sub11 := p.subResult("C11", tier)
 		for _, o := range sub11.Obls {
@@ -1727,4 +1728,75 @@ func judgeAlignHelper(p *Prog, r *Roles, h *ssa.Function) (string, bool) {
 		return "not recognised", false
 	}
 	return "realigned by " + funcName(h) + ": the index key of the decoded user key, or the border itself where it is not a version key", true
+}
+
+// checkScanCancellationIsAnError (C13-R8): a scan that stops because its context is done stops with an error. In the
+// scanner package, every return reached from the `<-ctx.Done()` case of a select carries a non-nil error: a retry
+// condition that answers "done, no error" there makes the read return what the finished partitions had, as a success.
+func checkScanCancellationIsAnError(p *Prog, res *Result, rule string) {
+	sp := p.ssaPkg("pkg/backend/scanner")
+	n := 0
+	for _, f := range p.AllFuncs {
+		if f.Pkg != sp || f.Blocks == nil {
+			continue
+		}
+		ei := errorResultIndex(f.Signature)
+		k := 0
+		for _, b := range f.Blocks {
+			for _, ins := range b.Instrs {
+				sel, ok := ins.(*ssa.Select)
+				if !ok {
+					continue
+				}
+				for si, st := range sel.States {
+					if st.Dir != types.RecvOnly {
+						continue
+					}
+					dc, ok := resolve(st.Chan).(*ssa.Call)
+					if !ok || !dc.Common().IsInvoke() || dc.Common().Method.Name() != "Done" || dc.Common().Method.Pkg() == nil || dc.Common().Method.Pkg().Path() != "context" {
+						continue
+					}
+					n++
+					k++
+					construct := fmt.Sprintf("%s: the ctx.Done() case #%d ends with an error", funcName(f), k)
+					if ei < 0 {
+						res.ok(rule, construct, p.pos(sel.Pos()), "the function has no error result (a producer that stops)")
+						continue
+					}
+					// the block(s) entered when the select chose this case: edge index == si
+					var idxV ssa.Value
+					for _, ref := range *sel.Referrers() {
+						if ex, ok := ref.(*ssa.Extract); ok && ex.Index == 0 {
+							idxV = ex
+						}
+					}
+					var bad *ssa.Return
+					for _, rb := range f.Blocks {
+						ret, ok := rb.Instrs[len(rb.Instrs)-1].(*ssa.Return)
+						if !ok || ei >= len(ret.Results) || !isNilConst(resolve(ret.Results[ei])) {
+							continue
+						}
+						for _, cf := range localFacts(rb) {
+							if cf.X == nil || idxV == nil {
+								continue
+							}
+							if resolve(cf.X) == idxV {
+								if kk, ok := constInt(cf.Y); ok && int(kk) == si && ((cf.Op == token.EQL && cf.Want) || (cf.Op == token.NEQ && !cf.Want)) {
+									bad = ret
+								}
+							}
+						}
+					}
+					if bad != nil {
+						res.bad(rule, construct, p.pos(bad.Pos()), "the function returns a nil error from the case that fires when its context is done: the scan stops early and its caller takes what was read so far for the complete result (Range / Count answer from the partitions that had finished, the stream ends with a clean terminator)")
+					} else {
+						res.ok(rule, construct, p.pos(sel.Pos()), "no nil-error return under the ctx.Done() case")
+					}
+				}
+			}
+		}
+	}
+	if n == 0 {
+		res.ok(rule, "scanner: ctx.Done() cases", "-", "no select on ctx.Done() in the scanner package")
+	}
 }
